@@ -384,14 +384,15 @@ Definition import_rxn (fl : iflags) (G : bgraph) (spn : gset nid) (acc : net * o
       let rm := side_map G spn rnd true in
       let pm := side_map G spn rnd false in
       let nd := default (BNode None None None None None) (b_nodes G !! rnd) in
-      match bn_eid nd with
-      | None => (s, Some EUnmodelled)               (* id synthesised from hash(payload) *)
-      | Some e =>
-          if decide (rm = ∅ ∧ pm = ∅) then (s, None)
-          else let '(s', er, _) := add s (normalize (map_to_list rm)) (normalize (map_to_list pm))
+      (* a node without arcs from / to species nodes is skipped, whatever its attributes *)
+      if decide (rm = ∅ ∧ pm = ∅) then (s, None)
+      else match bn_eid nd with
+           | None => (s, Some EUnmodelled)          (* id synthesised from hash(payload) AND used *)
+           | Some e =>
+               let '(s', er, _) := add s (normalize (map_to_list rm)) (normalize (map_to_list pm))
                                        (default (i_default_rule fl) (bn_label nd)) (Some e) in
                (s', of_err <$> er)
-      end
+           end
   end.
 
 Definition set_mol (s : net) (x m : string) : net :=
